@@ -54,6 +54,7 @@ enum CallKind {
     SPeers(Strm<Vec<SignedAnnounce>>),
     Muts(Strm<MutableItem>),
     Recent(Fut<Option<MutableItem>>),
+    Boot(Fut<bool>),
 }
 
 pub struct Call {
@@ -292,6 +293,12 @@ impl NodeStream {
                     Some(CallKind::Nodes(f)) => {
                         if let Poll::Ready(r) = f.as_mut().poll(&mut cx) {
                             events.push(format!("c{no}:nodes:{}", nodes_s(&r)));
+                            finished = true;
+                        }
+                    }
+                    Some(CallKind::Boot(f)) => {
+                        if let Poll::Ready(b) = f.as_mut().poll(&mut cx) {
+                            events.push(format!("c{no}:bootstrapped:{b}"));
                             finished = true;
                         }
                     }
@@ -1016,6 +1023,7 @@ impl Stream for NodeStream {
                             Poll::Pending => return "bad-op".into(),
                         }
                     }
+                    "bootstrapped" => CallKind::Boot(Box::pin(async move { d.bootstrapped().await })),
                     "find_node" => {
                         let target = id_of(kv(toks, "t").expect("t"));
                         CallKind::Nodes(Box::pin(async move { d.find_node(target).await }))
@@ -2806,6 +2814,40 @@ pub fn run(out: &mut Out, seed: u64, thorough: bool, replay: Option<&str>) {
         d.finish();
         d.out.mark_distinct(fnv(format!("P{round}").as_bytes()));
         d.out.count("request-filter-bans-an-address");
+        d.s.shutdown();
+    }
+    // ---- Q (C13, C06): `bootstrapped()` — true once a bootstrap server has answered, false (not a hang) when
+    //          the whole bootstrap list is unreachable, asked while the bootstrap lookup is still running and
+    //          after it has ended, twice in a row
+    for round in 0..(if thorough { 6 } else { 3 }) {
+        t0 += 10_000_000_000_000;
+        let mut net = VNet::new(&mut rng, 3 + round, true);
+        let dead = round % 3 == 1;
+        if dead {
+            for p in net.peers.iter_mut() {
+                p.alive = false;
+            }
+        }
+        let boot: Vec<SocketAddrV4> = net.peers.iter().take(2).map(|p| p.addr).collect();
+        let mut d = Driver::new(out, rng.next(), net);
+        d.begin(if round % 2 == 0 { "c" } else { "s" }, &boot, None, rng.next() % 1_000_000 + 1, t0);
+        // right away: the call joins the bootstrap lookup that `Dht::new` started
+        let c1 = d.api("bootstrapped".into());
+        let c2 = d.api("bootstrapped".into());
+        d.settle(20 * SEC, 10 * MS);
+        d.run_for(3 * SEC, 10 * MS);
+        let c3 = d.api("bootstrapped".into());
+        d.settle(20 * SEC, 10 * MS);
+        for c in [c1, c2, c3] {
+            let got = d.results(c);
+            let want = if dead { "bootstrapped:false" } else { "bootstrapped:true" };
+            if !got.iter().any(|r| r.ends_with(want)) {
+                d.out.violation("C13", "bootstrapped-wrong", format!("bootstrapped() yielded {:?} with a bootstrap list that is {}", got, if dead { "entirely unreachable" } else { "alive" }));
+            }
+        }
+        d.finish();
+        d.out.mark_distinct(fnv(format!("Q{round}").as_bytes()));
+        d.out.count(if dead { "bootstrapped-dead-list" } else { "bootstrapped-live-list" });
         d.s.shutdown();
     }
     // ---- F2: adaptive node confirmed at address A; then its peers report another address B that is
